@@ -6,7 +6,10 @@ post-dominators, reachability, back edges), expression-tree helpers
 forward-dataflow driver.  No property logic.
 """
 import json
+import os
 import sys
+
+REPO = os.environ.get("LCB_REPO", "/repo").rstrip("/")
 
 sys.setrecursionlimit(10000)
 
@@ -122,8 +125,8 @@ class Func:
     # ------------------------------------------------------------ identity
     def relfile(self):
         f = self.file
-        if f.startswith("/repo/"):
-            return f[len("/repo/"):]
+        if f.startswith(REPO + "/"):
+            return f[len(REPO) + 1:]
         return f
 
     def where(self, ln=None):
